@@ -115,6 +115,8 @@ type judgeStats struct {
 	sends                                                          int
 	refAck, refRetry, refNoRetry, refMaxRetries, refPolicy, refNon int
 	distinct                                                       []string
+	lagged                                                         int           // retries whose nack was applied later than the failure (deferred batch mutation)
+	maxLag                                                         time.Duration // largest such deferral
 }
 
 func judge(sp Spec, res Result) ([]Finding, judgeStats) {
@@ -251,6 +253,18 @@ func judge(sp Spec, res Result) ([]Finding, judgeStats) {
 					capped = "cap"
 				}
 				js.distinct = append(js.distinct, fmt.Sprintf("%s:delay:j=%s:%s:%s", sp.Part, rc.JNum.String()+"/"+rc.JDen.String(), capped, pos))
+				if lag := s.ActAt.Sub(s.End); lag > 0 {
+					// the delay counts from the moment the lease mutation is applied, the statement counts from the failure
+					js.lagged++
+					if lag > js.maxLag {
+						js.maxLag = lag
+					}
+					if s.Delay <= hi+tol && lag+s.Delay > hi+tol {
+						add("schedule:later-than-upper-bound-after-failure:deferred-lease-mutation",
+							"%s; the retry delay %s is inside the window [%s,%s] but the nack was applied %s after the failure (virtual time, after the other deliveries of the dequeue micro-batch), so the retry is scheduled %s after the failure, later than the upper bound %s",
+							ctx, s.Delay, lo, hi, lag, lag+s.Delay, hi)
+					}
+				}
 				if s.Delay < lo-tol {
 					add("delay:below-lower-bound", "%s; retry delay %s < lower bound %s (window [%s,%s], u=%v)", ctx, s.Delay, lo, lo, hi, sp.U)
 				}
@@ -332,6 +346,7 @@ type checker struct {
 	capped   bool
 	reported map[string]bool
 	samples  map[string]int
+	maxLag   time.Duration
 }
 
 // sample keeps at most n examples per part so that the six evidence samples cover all parts.
@@ -376,6 +391,13 @@ func (c *checker) run(sp Spec) Result {
 	r.Add("ref_nonsuccess_1xx_3xx", int64(js.refNon))
 	for _, d := range js.distinct {
 		r.Distinct(d)
+	}
+	if js.lagged > 0 {
+		r.Add("info_retries_scheduled_after_micro_batch_mates", int64(js.lagged))
+		if js.maxLag > c.maxLag {
+			c.maxLag = js.maxLag
+			r.Set("info_max_deferral_of_retry_scheduling", js.maxLag.String())
+		}
 	}
 	if c.reported == nil {
 		c.reported = map[string]bool{}
@@ -443,13 +465,20 @@ func (c *checker) partA() {
 		http  bool
 		maxes []int
 	}
-	variants := []variant{{"memory", false, []int{1, 2, 3}}}
+	variants := []variant{
+		{"memory", false, []int{1, 2, 3}},
+		{"memory", true, []int{1, 2, 3}},
+		{"memory-nobatch", false, []int{1}},
+	}
 	if r.Thorough() {
-		variants = append(variants,
-			variant{"memory", true, []int{1, 2, 3}},
-			variant{"memory-nobatch", false, []int{1, 2}},
-			variant{"sqlite-noret", false, []int{2}},
-		)
+		variants = []variant{
+			{"memory", false, []int{1, 2, 3, 8}},
+			{"memory", true, []int{1, 2, 3, 8}},
+			{"memory-nobatch", false, []int{1, 2, 3}},
+			{"memory-noret", false, []int{1, 2}},
+			{"sqlite-noret", false, []int{2}},
+			{"sqlite", true, []int{1}},
+		}
 	}
 	answers := allAnswers()
 	n := 0
@@ -631,9 +660,10 @@ func (c *checker) partC() {
 		us    []float64
 	}
 	jobs := []job{
-		{"memory", small, []int{1, 2}, []float64{0}},
+		{"memory", small, []int{1, 2}, []float64{0, u1}},
 		{"memory-noret", small, []int{1, 2}, []float64{0}},
 		{"sqlite", small, []int{1, 2}, []float64{0}},
+		{"sqlite-noret", small, []int{1}, []float64{0.5}},
 	}
 	if r.Thorough() {
 		jobs = []job{
@@ -672,17 +702,44 @@ func (c *checker) partC() {
 	if c.capped {
 		return
 	}
-	// two targets on one route (per-action lease mutations), one and two workers: every pair of distinct histories
-	pairMax := [][2]int{{1, 1}}
-	if r.Thorough() {
-		pairMax = [][2]int{{1, 1}, {1, 2}, {2, 2}}
+	// the distinct histories over the small alphabet (a subset in the thorough tier)
+	inSmall := func(sc []Beh) bool {
+		for _, b := range sc {
+			found := false
+			for _, x := range small {
+				if x == b {
+					found = true
+				}
+			}
+			if !found {
+				return false
+			}
+		}
+		return true
 	}
-	for _, pm := range pairMax {
-		ta, tb := tgt("/a", pm[0]), tgt("/b", pm[1])
+	effSmall := map[int][][]Beh{}
+	for max, l := range eff {
+		for _, sc := range l {
+			if inSmall(sc) {
+				effSmall[max] = append(effSmall[max], sc)
+			}
+		}
+	}
+	// two targets on one route (per-action lease mutations), one and two workers: every pair of distinct histories
+	type pair struct {
+		ma, mb int
+		concs  []int
+	}
+	pairs := []pair{{1, 1, []int{1, 2}}, {1, 2, []int{1, 2}}}
+	if r.Thorough() {
+		pairs = []pair{{1, 1, []int{1, 2}}, {1, 2, []int{1, 2}}, {2, 2, []int{2}}}
+	}
+	for _, pm := range pairs {
+		ta, tb := tgt("/a", pm.ma), tgt("/b", pm.mb)
 		tb.Base, tb.Cap = "150ms", "400ms"
-		for _, conc := range []int{1, 2} {
-			for _, sa := range eff[pm[0]] {
-				for _, sb := range eff[pm[1]] {
+		for _, conc := range pm.concs {
+			for _, sa := range eff[pm.ma] {
+				for _, sb := range eff[pm.mb] {
 					if c.expired() {
 						return
 					}
@@ -696,15 +753,21 @@ func (c *checker) partC() {
 			}
 		}
 	}
-	// one target, several workers and messages (batched dequeue and batched lease mutations)
-	type multi struct{ conc, msgs, max int }
-	multis := []multi{{2, 2, 1}}
+	// one target, several workers and messages (batched dequeue and batched lease mutations): every tuple
+	type multi struct {
+		conc, msgs, max int
+		scripts         map[int][][]Beh
+	}
+	multis := []multi{{2, 2, 1, eff}, {2, 2, 2, eff}, {4, 3, 1, effSmall}}
 	if r.Thorough() {
-		multis = []multi{{2, 2, 1}, {2, 2, 2}, {4, 3, 1}, {3, 4, 1}}
+		multis = []multi{{2, 2, 1, eff}, {2, 2, 2, eff}, {4, 3, 1, effSmall}, {3, 3, 1, effSmall}, {4, 2, 2, effSmall}}
 	}
 	for _, mu := range multis {
 		tg := tgt("/hook", mu.max)
-		scripts := eff[mu.max]
+		scripts := mu.scripts[mu.max]
+		if len(scripts) == 0 {
+			continue
+		}
 		idx := make([]int, mu.msgs)
 		for {
 			if c.expired() {
